@@ -270,6 +270,37 @@ def sisCase (N lin circ : Nat) (d : Dim) (nx ny hm steps : Nat) (resampleAt : Na
     pure (some ([toString steps] ++ PSTokens I N ++ PSTokens I N))
 def sisValid (N lin circ : Nat) (d : Dim) (hm : Nat) : Prop := 1 ≤ N ∧ lin + circ = d.n ∧ 1 ≤ hm
 
+/-! #### "a failed call after a successful one, then every getter" on one object -/
+
+def bootSeqCase (I : Layout) (M : MMod) (steps : List CStep) : Case := do
+  let toks ← steps.foldlM (fun (acc : List String) s => do
+    let (v, n) ← bootstrapCorrect I s.K (M.withFlags s)
+    pure (acc ++ [s!"{s.K}:{b01 v}:{n}"])) []
+  pure (some toks)
+
+def gpfcSeqCase (d : Dim) (hm : Nat) (steps : List CStep) : Case := do
+  if hm = 0 then pure none
+  else do
+    let toks ← steps.foldlM (fun (acc : List String) s => do
+      let (k, v, n) ← gpfCorrect d s.K s.K hm hm s.mv
+      pure (acc ++ [s!"{k}:{b01 v}:{n}"])) []
+    pure (some toks)
+def gpfcSeqValid (hm : Nat) (steps : List CStep) : Prop := 1 ≤ hm ∧ ∀ s ∈ steps, 1 ≤ s.K
+
+/-- one EstimatesExtraction object, the method changed between extractions (a map-based method asked through the
+    two-argument overload is the failing call) -/
+def eeSeq : EEState → EEArgs → List (EMethod × Bool) → W (List String)
+  | _, _, [] => pure []
+  | s, a, (m, full) :: rest => do
+    let (s', av, sz) ← eeExtract s m full a
+    let r ← eeSeq s' a rest
+    pure (s!"{if av then 1 else 0}:{sz}" :: r)
+
+def eeSeqCase (ls cs N : Nat) (steps : List (EMethod × Bool)) : Case := do
+  let t ← eeSeq (EEState.new ls cs) ⟨⟨ls + cs, N⟩, N, N, N, ⟨N, N⟩⟩ steps
+  pure (some t)
+
+instance (hm : Nat) (st : List CStep) : Decidable (gpfcSeqValid hm st) := by unfold gpfcSeqValid; infer_instance
 instance (a b c d e : Nat) : Decidable (linpropValid a b c d e) := by unfold linpropValid; infer_instance
 instance (I : Layout) (K : Nat) (P : Layout) (pK fn : Nat) (m : SkipMode) (x y : Bool) : Decidable (kfpValid I K P pK fn m x y) := by unfold kfpValid; infer_instance
 instance (a : Bool) (I : Layout) (K n qn : Nat) (D : Layout) (i : Nat) : Decidable (ukfpValid a I K n qn D i) := by unfold ukfpValid; infer_instance
